@@ -274,3 +274,87 @@ Definition premises_hold (s : cstate) : bool :=
   let n := length (cvars s) in
   fresh_var n (ceqs s) && fresh_var (S n) (ceqs s) && lhs_nodupb (map q_lhs (ceqs s)) &&
   forallb (fun t => fresh_atom n t (ceqs s)) (seq 0 (S n)).
+
+(* ---- the specification-level system for the conversion of the free variable (theorem C06_input_free) ------------------
+   The fold above reaches it up to the order of the equations; free_spec_code evaluates that on every case. *)
+Definition orec := (nat * expr * nat)%type.    (* state y, right-hand side R of its ODE, new variable w holding d y/d v *)
+Definition ws_of (os : list orec) : list nat := map (fun o => snd o) os.
+Definition ys_of (os : list orec) : list nat := map (fun o => fst (fst o)) os.
+Definition subst_map (os : list orec) (v : nat) : list ((nat * nat) * nat) := map (fun o => ((fst (fst o), v), snd o)) os.
+Definition is_ode (q : ceq) : bool := match q_lhs q with CLD _ _ => true | CLV _ => false end.
+
+Definition free_system (plain : list ceq) (os : list orec) (v n : nat) (cf : expr) : list ceq :=
+  let m := subst_map os v in
+  map (fun q => {| q_lhs := q_lhs q; q_rhs := subst_deriv m (q_rhs q) |}) plain
+  ++ [{| q_lhs := CLV v; q_rhs := ediv (var n) cf |}]
+  ++ map (fun o => {| q_lhs := CLV (snd o); q_rhs := subst_deriv m (snd (fst o)) |}) os
+  ++ map (fun o => {| q_lhs := CLD (fst (fst o)) n; q_rhs := ediv (var (snd o)) cf |}) os.
+
+(* the original system: the plain (non-ODE) equations and one ODE  d y/d v = R  per record *)
+Definition orig_system (plain : list ceq) (os : list orec) (v : nat) : list ceq :=
+  plain ++ map (fun o => {| q_lhs := CLD (fst (fst o)) v; q_rhs := snd (fst o) |}) os.
+
+Fixpoint sexp_eqb (a b : sexp) : bool :=
+  match a, b with
+  | A x, A y => Z.eqb x y
+  | L l1, L l2 =>
+      (fix go (l1 l2 : list sexp) : bool :=
+         match l1, l2 with
+         | [], [] => true
+         | x :: r1, y :: r2 => sexp_eqb x y && go r1 r2
+         | _, _ => false
+         end) l1 l2
+  | _, _ => false
+  end.
+Definition ceq_eqb (a b : ceq) : bool :=
+  clhs_eqb (q_lhs a) (q_lhs b) && sexp_eqb (sexp_of_expr (q_rhs a)) (sexp_of_expr (q_rhs b)).
+Fixpoint remove1 (q : ceq) (l : list ceq) : option (list ceq) :=
+  match l with
+  | [] => None
+  | x :: r => if ceq_eqb q x then Some r else match remove1 q r with Some r' => Some (x :: r') | None => None end
+  end.
+Fixpoint perm_eqb (l1 l2 : list ceq) : bool :=
+  match l1 with
+  | [] => match l2 with [] => true | _ => false end
+  | q :: r => match remove1 q l2 with Some l2' => perm_eqb r l2' | None => false end
+  end.
+Fixpoint nat_nodupb (l : list nat) : bool :=
+  match l with [] => true | x :: r => negb (existsb (Nat.eqb x) r) && nat_nodupb r end.
+
+(* 0: the specification does not apply to this conversion; 1: applies, premises of the theorem hold and the model's result
+   is the specification system up to order; 2: applies but differs (reported as a correspondence break) *)
+Definition free_spec_code (s s' : cstate) (v n : nat) (d : direction) : Z :=
+  match d with
+  | DOutput => 0
+  | DInput =>
+    if negb (Nat.eqb n (length (cvars s))) then 0 else
+    match free_var s with
+    | None => 0
+    | Some t =>
+      if negb (Nat.eqb t v) || is_state s v || (match var_def s v with Some _ => true | None => false end)
+         || negb (forallb (fun q => match q_lhs q with CLD _ t' => Nat.eqb t' v | _ => true end) (ceqs s)) then 0 else
+      match find (fun q => clhs_eqb (q_lhs q) (CLV v)) (ceqs s') with
+      | Some {| q_lhs := _; q_rhs := EMul [_; EPow cf' _] |} =>
+          let plain := filter (fun q => negb (is_ode q)) (ceqs s) in
+          let os := flat_map (fun q =>
+                      match q_lhs q with
+                      | CLD y _ =>
+                          match find (fun q' => clhs_eqb (q_lhs q') (CLD y n)) (ceqs s') with
+                          | Some {| q_lhs := _; q_rhs := EMul [EVar w; _] |} => [(y, q_rhs q, Z.to_nat w)]
+                          | _ => []
+                          end
+                      | _ => []
+                      end) (ceqs s) in
+          if Nat.eqb (length os) (length (filter is_ode (ceqs s)))
+             && perm_eqb (ceqs s) (orig_system plain os v)
+             && perm_eqb (ceqs s') (free_system plain os v n cf')
+             && nat_nodupb (ws_of os) && nat_nodupb (ys_of os)
+             && forallb (fun q => fresh_var1 n q && forallb (fun w => fresh_var1 w q) (ws_of os)
+                                  && forallb (fun y => fresh_atom1 y n q) (ys_of os)) (ceqs s)
+             && negb (existsb (Nat.eqb n) (ws_of os)) && negb (existsb (Nat.eqb v) (ws_of os)) && negb (Nat.eqb v n)
+             && (match cf' with EQty _ c _ => negb (Qeq_bool c 0) | _ => false end)
+          then 1 else 2
+      | _ => 2
+      end
+    end
+  end.
